@@ -107,6 +107,8 @@ class WriteProxy:
             self.write(l)
 
     def flush(self):
+        if self._rec.count("flush", self._path):
+            self._rec.fault("flush", self._path)
         return self._f.flush()
 
     def close(self):
